@@ -411,6 +411,7 @@ func genRandom(c *GenCtx, family string, n int, depth int) {
 
 // projection-heavy expressions: chains of wildcards, filters, flattens, slices and selectors
 func genProjections(c *GenCtx, n int) {
+	genPipeIndex(c)
 	r := c.Rng
 	heads := []string{"foo", "bar", "@", "*", "[*]", "[]", "a", "foo.bar", "[?a]", "[0:]", "$"}
 	sels := []string{"[*]", "[*]", ".*", "[]", "[?a]", "[?@]", "[0]", "[-1]", "[1:]", "[::2]", ".a", ".b", ".foo", ".bar", ".{k: a}", ".[a, b]", ".k", ".*", "[*]", ".length(@)", ".a.b", "[?b == `1`]", ".keys(@)", ".[*]"}
@@ -635,3 +636,31 @@ func judges(c *GenCtx, ops []Op, model map[int]string) []Diff {
 }
 
 var _ = fmt.Sprintf
+
+// a projection piped into an index or a slice: the projection drops its null results BEFORE the pipe sees the array, so
+// `x[?c].f | [0]` is the first non-null `f` among the matches, not `f` of the first match — over arrays whose first
+// (last) matching element lacks the field, has it null, or is not an object (seeded L08: "first match" fusion)
+func genPipeIndex(c *GenCtx) {
+	docs := []string{
+		`{"x":[{"k":1},{"k":2,"f":null},{"k":3,"f":"c"},{"k":4,"f":"d"},{"k":5}]}`,
+		`{"x":[{"k":1,"f":"a"},{"k":2},{"k":3,"f":"c"}]}`,
+		`{"x":[{"k":9},{"k":8,"f":{"g":null}},{"k":7,"f":{"g":1}}]}`,
+		`{"x":[1,"s",null,{"k":3,"f":"c"},[{"k":4,"f":"d"}]]}`,
+		`{"x":[]}`, `{"x":null}`, `{"x":{"a":{"k":2},"b":{"k":3,"f":"c"}}}`,
+		`{"x":[[{"k":1}],[{"k":2,"f":"b"}],[]]}`,
+	}
+	lefts := []string{"x[?k > `1`].f", "x[?k].f", "x[*].f", "x[].f", "x[?k >= `2`].f.g", "x[?k][].f", "x[1:].f", "x[::-1].f", "x.*.f", "x[?k > `1`]", "x[?!f]", "x[*]", "x[?k].{v: f}.v",
+		"x[?k > `1`].[f][]", "x[?f == `null`].k", "x[?k].f[?@]", "[x][0][?k > `1`].f", "x[?k > `1`].f.length(@)", "x[?k && !f].k", "x[*][0].f", "x[][?k].f"}
+	rights := []string{"[0]", "[-1]", "[1]", "[:1]", "[-1:]", "[0].g", "[0] || 'none'", "length(@)", "[?@]", "[*]", "[0][0]", "reverse(@)[0]", "not_null(@)", "[::-1][0]"}
+	for _, d := range docs {
+		for _, l := range lefts {
+			for _, r := range rights {
+				c.add("pipe-index", l+" | "+r, d)
+				if r == "[0]" || r == "[-1]" {
+					c.add("pipe-index", "("+l+")"+r, d)
+					c.add("pipe-index", "[@][*]."+l+" | [*]"+r, d)
+				}
+			}
+		}
+	}
+}
